@@ -29,7 +29,7 @@ EXPLANATION = (
     "; RL-sem - Rule.load / unload interpreted on the four loaded states (both parts are loaded with the engine handed in, whatever was loaded before); loading leaves the text as it was; X1-sem - format_infix interpreted on a corpus of operand spellings x operator symbols"
 )
 ASSUMPTIONS = ["decides structure and wiring of antecedent evaluation; the numeric value of a particular antecedent is not decided"]
-FLOORS = {"PD": 4, "T1": 2, "W1": 1, "P9": 7, "P10": 2, "P3": 3, "P2": 14, "H1": 2, "LD": 4, "X1": 2}
+FLOORS = {"PD": 4, "T1": 2, "W1": 1, "P9": 7, "P10": 2, "P3": 3, "P2": 14, "LD": 4, "X1": 2}
 
 
 def run(check: Check) -> None:
@@ -52,7 +52,7 @@ def run(check: Check) -> None:
     w1_operand_order(check)
     loaders.loader(check, "Antecedent.load")
     wiring.rule_load_semantics(check)  # "a loaded rule": Rule.load replaces what was loaded before by the reading of the current text
-    h1_hedge_storage(check)
+    # (H1 hedge storage - hedges appended in reading order - is an effect LD decides by interpretation; the shape rule was removed)
     from .antecedent_sem import antecedent_semantics
 
     antecedent_semantics(check, rule="P9")  # Antecedent.activation_degree interpreted on model expression trees with symbolic leaves
